@@ -6,7 +6,7 @@ from . import conv_e2e as E
 PROP = "C01"
 RULE = ("cases = record histories of 8..90 records over up to 6 processes: FORK / EXIT / COMM / EXEC / SAMPLE / MMAP2 in arbitrary interleavings (not restricted to the kernel's grammar), pid and tid reuse after exit, "
         "threads and processes first seen through a sample, a COMM or an mmap, samples of the idle thread 0, exact same-thread same-timestamp repeats, group leaders that exit before their threads; "
-        "written as perf.data (time-ordered, or physically shuffled inside FINISHED_ROUND rounds), converted by `samply import --save-only` with default options. Observed: per thread entry the pid/tid "
+        "written as perf.data (time-ordered, or physically shuffled inside FINISHED_ROUND rounds; the main event with and without PERF_SAMPLE_PERIOD / PERF_SAMPLE_CPU), converted by `samply import --save-only` with default options. Observed: per thread entry the pid/tid "
         "strings and the sample times and weights. Decided in Coq: the multiset of (pid, tid, time) of all output samples equals the accepted input samples (specification independent of the model), all "
         "weights 1; conformance: every entry holds exactly the samples the model puts there. Third stream: the same histories with CONTEXT_SWITCH records (in / out, of live, unknown and idle threads; attr.context_switch set): "
         "every accepted input sample appears exactly once with weight 1 on its (pid, tid) (further samples would be allowed there), and the entries are the model's. non-trivial = the history contains an EXIT or EXEC and at least two samples")
@@ -28,6 +28,9 @@ def gen(tier, rng, scale):
         c = {"items": recs}
         if rng.chance(1, 3):
             c["shuffle"] = rng.next()
+        if rng.chance(1, 3):
+            # the main event records no PERF_SAMPLE_PERIOD and / or no PERF_SAMPLE_CPU (e.g. `perf record -c N`): every CPU delta is then 0
+            c["layout"] = rng.choice([[True, False], [False, True], [False, False]])
         cases.append(c)
     # the same kind of histories converted with --reuse-threads and / or --fold-recursive-prefix (decided by the specification alone)
     frng = rng.fork("flags")
@@ -80,7 +83,8 @@ def known(case):
 
 
 def describe(case):
-    d = {"records": case["items"][:120], "shuffled_in_rounds": "shuffle" in case, "options": case.get("flags", [])}
+    d = {"records": case["items"][:120], "shuffled_in_rounds": "shuffle" in case, "options": case.get("flags", []), "sample_fields_cpu_period": case.get("layout", [True, True]),
+         "context_switch_records": bool(case.get("sw"))}
     if "_view" in case:
         d["observed_entries"] = [{k: (v if k != "samples" else v[:20]) for k, v in e.items()} for e in case["_view"][:12]]
     if "_out" in case:
